@@ -17,7 +17,10 @@ pkgdir=${pkgdir#/tmp/seed-*/repo/}; pkgdir=${pkgdir#./}; [ -z "$pkgdir" ] && pkg
 rundemo() {
   if [ -f "$src/demo_test.go" ]; then
     cp "$src/demo_test.go" "$d/repo/$pkgdir/zz_seed_demo_test.go"
-    timeout 900 go test -count=1 -run 'Demo|Seed' "./$pkgdir/" > "$d/demo.log" 2>&1; rc=$?
+    # the tests of the demonstration file, by name (not every agent calls them Demo... / Seed...)
+    pat=$(grep -oE '^func (Test[A-Za-z0-9_]+)' "$src/demo_test.go" | sed 's/^func //' | paste -sd'|')
+    timeout 900 go test -count=1 -run "^(${pat:-Demo|Seed})\$" "./$pkgdir/" > "$d/demo.log" 2>&1; rc=$?
+    grep -q "no tests to run" "$d/demo.log" && rc=98
     rm -f "$d/repo/$pkgdir/zz_seed_demo_test.go"
   elif [ -f "$src/demo/main.go" ]; then
     mkdir -p "$d/repo/zz_demo"; cp "$src/demo/main.go" "$d/repo/zz_demo/main.go"
@@ -29,7 +32,7 @@ rundemo() {
 if [ $applies = yes ]; then
   rundemo; [ $? -eq 0 ] && demo_without=pass || { demo_without=FAIL; tail -5 "$d/demo.log"; }
   git apply "$src/patch.diff"
-  rundemo; rcw=$?; [ $rcw -ne 0 ] && [ $rcw -ne 99 ] && demo_with=fail || { demo_with=PASS; tail -5 "$d/demo.log"; }
+  rundemo; rcw=$?; [ $rcw -ne 0 ] && [ $rcw -ne 99 ] && [ $rcw -ne 98 ] && demo_with=fail || { demo_with=PASS; tail -5 "$d/demo.log"; }
   pkgs=$(git diff --name-only | xargs -n1 dirname | sort -u | sed 's#^#./#' | tr '\n' ' ')
   if echo " $pkgs " | grep -q " \./\. "; then
     # the root suite binds fixed ports and other people's suites run on this machine: run it in a private
